@@ -49,7 +49,7 @@ type Node struct {
 	After    *CProps `json:"after,omitempty"`
 	ListType string  `json:"list_type,omitempty"` // list-style-type of a list item
 	Start    *int64  `json:"start,omitempty"`     // <ol start>
-	Value    *int64  `json:"value,omitempty"`     // <li value> (never generated: finding F14)
+	Value    *int64  `json:"value,omitempty"`     // <li value>
 	Children []*Node `json:"children,omitempty"`
 }
 
@@ -153,6 +153,12 @@ func (m *listsModel) apply(set []cinst, p CProps, self int, prevSibs map[int]boo
 		set[innermost(set, c.Name)].value += val(c, 1)
 	}
 	for _, c := range p.Set {
+		for _, i := range incr {
+			if i.Name == c.Name {
+				m.stats["tree_set_after_increment_same_name"]++
+				break
+			}
+		}
 		if innermost(set, c.Name) < 0 {
 			m.stats["tree_implicit_instantiated"]++
 			set = m.instantiate(set, c.Name, 0, self, prevSibs)
@@ -251,6 +257,9 @@ func (m *listsModel) element(n *Node, parent, prevSib []cinst, root bool, prevSi
 	self := m.nextID
 	m.nextID++
 	set := m.inherit(parent, prevSib, root)
+	if n.Tag == "li" && n.Value != nil && hints && n.Props.Set == nil {
+		m.stats["tree_li_value_hint"]++
+	}
 	set = m.apply(set, effectiveProps(n, hints), self, prevSibs, n.isListItem())
 	m.last = set
 	if n.isListItem() && n.ListType != "none" {
